@@ -384,7 +384,7 @@ func reconcileDirect(c *fw.Ctx) {
 		c.Count("exhaustive_spaces_completed", 1)
 	}
 	// random longer lists with big amounts
-	n := c.N(2000, 200000)
+	n := c.N(20000, 400000)
 	for i := 0; i < n; i++ {
 		id := "reconcile-rand/" + itoa(i)
 		if !c.Want(base+1_000_000+i, id) {
@@ -589,7 +589,7 @@ func runC08(c *fw.Ctx) {
 			strata = append(strata, s)
 		}
 	}
-	forEachCase(strata, c.N(15000, 1500000), func(i int, id string, st *stratum, k int) {
+	forEachCase(strata, c.N(60000, 1500000), func(i int, id string, st *stratum, k int) {
 		if !c.Want(100000+i, id) {
 			return
 		}
